@@ -55,22 +55,32 @@ MANIFEST = {
 }
 RULE = (
     'msg/bundle stages: Hypothesis recursive strategies over the argument '
-    'classes of the quantifier; blob lengths are forced evenly over len%4, '
-    'string byte lengths likewise; one unrepresentable value (int outside '
-    'int32, str with NUL, lone surrogate, malformed list, unbalanced marker, '
-    'timetag overflow, nested time earlier than enclosing) is injected in '
-    '~1/8 of the cases. Non-trivial = the packet was accepted and verified '
-    'and contains a blob with len%4 != 0, a non-ASCII string, a nested '
-    'message/bundle list or an array, or it carried an unrepresentable value '
-    'whose refusal was checked. clump stage: element lists expanded from '
-    '(template, count) groups with counts chosen so that the total real or '
-    'predicted size lands within a few elements of 8192, 65468, 65504 or '
-    '2x65504; non-trivial = more than one datagram was sent or the total is '
-    'within 64 bytes of a limit. dsend: definition byte lengths placed so the '
-    '/d_recv datagram is within +-16 bytes of 65504 (all residues mod 4); '
-    'non-trivial = within 16 bytes of the limit. score: 1-6 packets sent '
-    'through the NRT interface; non-trivial = >= 2 packets with a nested '
-    'list or blob. Distinct by sha1 of the canonical case JSON.')
+    'classes of the quantifier (weights fixed by construction, no '
+    'filtering); blob lengths are forced evenly over len%4, both UTF-8 and '
+    'ASCII strings of 0-9 characters, big blobs/strings near 8192 and 65504 '
+    'bytes; one unrepresentable value (int outside int32, str with NUL, '
+    'lone surrogate, malformed list, unbalanced marker) or may-refuse value '
+    '(empty blob, float beyond binary32) is injected in ~1/6 of the '
+    'messages, 1/120 of the bundle times is not representable, nested '
+    'bundle times are >= the enclosing one except in 1/8. Every case runs '
+    'on the NRT interface or on the base-class (RT) interface. Non-trivial '
+    '= the packet was accepted and verified and contains a blob with len%4 '
+    '!= 0, a non-ASCII string, a nested message/bundle list or an array, or '
+    'it carried an unrepresentable value whose refusal was checked. clump '
+    'stage: element lists expanded from (template, count) groups (tiny '
+    '8-byte messages, int messages, ASCII / non-ASCII strings, aligned / '
+    'unaligned blobs, nested bundles, completion messages) with counts '
+    'chosen so that the total real or predicted size lands within a few '
+    'elements of 8192, 65468, 65504, 65536 or 2x65504, sent through '
+    'send_clumped_bundles, sync(elements=) or BundleNetAddr; non-trivial = '
+    'more than one datagram was sent or the total is within 64 bytes of a '
+    'limit. dsend: definition byte lengths placed so the '
+    '/d_recv datagram is within +-12 bytes of 65504 (all residues mod 4), '
+    'nine completion messages; non-trivial = within 12 bytes of the limit. '
+    'score: 1-6 packets sent through the NRT interface and read back from '
+    'the score bytes; non-trivial = >= 2 packets entered the score, one '
+    'with a nested list, array, unaligned blob or non-ASCII string. '
+    'Distinct by sha1 of the canonical case JSON.')
 ASSUMPTIONS = [
     'Addresses are valid OSC 1.0 ASCII addresses (no pattern characters).',
     'Strings are compared as UTF-8 (sc3 sends UTF-8; OSC 1.0 says ASCII).',
@@ -143,9 +153,6 @@ def timebase(iface, lenient=False):
 
 
 # --- case data -> Python values ---------------------------------------------------
-
-_PATTERN = bytes(range(256)) * 2
-
 
 def pattern_bytes(n, fill):
     reps = n // 256 + 2
@@ -247,7 +254,7 @@ def feature_labels(f):
               'empty_list', 'big'):
         if f[k]:
             lb.append(k)
-    lb.append(f'blob_depth={f["maxdepth"]}')
+    lb.append(f'list_depth={f["maxdepth"]}')
     return lb
 
 
@@ -698,9 +705,10 @@ def run_clump(case, v):
         flat = []
         for e in elems:
             flat.extend([e] if M.is_msg_list(e) else e[1:])
-        exp = [M.expect_packet(e, tb) for e in flat]
+        sources = flat
     else:
-        exp = [M.expect_packet(e, tb) for e in elems]
+        sources = elems
+    exp = [M.expect_packet(e, tb) for e in sources]
     sizes = [R.packet_size(e) for e in exp]
     total = R.bundle_size(sizes)
     labels = [f'path={path}']
@@ -763,13 +771,16 @@ def run_clump(case, v):
                 els.pop()
         if len(d) > LIMIT:
             acc = 16 + sum(R.packet_size(e) for e in els)
-            kind = ('clump_over_limit_prefix_bytes'
-                    if path == 'sync' and acc < SYNC_MAX
-                    else 'clump_over_limit')
-            fail(v, kind,
+            # what the two known size-formula defects contribute here
+            src = [features(e) for e in sources[len(got):len(got) + len(els)]]
+            fail(v, 'clump_over_limit',
                  f'{path}: datagram {i} of {len(cap.sent)} has {len(d)} '
                  f'bytes > {LIMIT} ({len(els)} elements, 16+sum(element '
-                 f'sizes)={acc}); case {short(case)}')
+                 f'sizes)={acc}); case {short(case)}',
+                 path=path, n=len(els), acc=acc, size=len(d),
+                 ndgrams=len(cap.sent),
+                 bdef=sum(f['blob_deficit'] for f in src),
+                 udef=sum(f['utf8_deficit'] for f in src))
         got.extend(els)
     if len(got) != len(exp):
         fail(v, 'clump_elements_differ',
@@ -794,7 +805,9 @@ def run_clump(case, v):
 
 COMPLETIONS = [None, None, ['/sync', 7], ['/s_new', 'c06def', 1000, 0, 1],
                ['/n_set', 1000, 'freq', 440.0, 'x'],
-               [0.0, ['/s_new', 'c06def', 1000, 0, 1]], []]
+               [0.0, ['/s_new', 'c06def', 1000, 0, 1]], [],
+               ['/b_setn', 0, 0, 5, {'hex': '0102030405', 'w': 0}],
+               ['/s_new', 'c06def', 1000, 0, 1, 'n\u00e4m', '\u20ac\u20ac\u20ac']]
 
 
 @st.composite
@@ -804,8 +817,9 @@ def dsend_case(draw):
     if where == 'edge':
         # real size of ['/d_recv', blob(n), compl] as a function of n
         tb = M.TimeBase('nrt', lenient=True)
-        base = R.packet_size(M.expect_msg(['/d_recv', b'1234', compl], tb)) - 4
-        n = LIMIT - base + draw(st.integers(-16, 16))
+        base = R.packet_size(
+            M.expect_msg(['/d_recv', b'1234', mat(compl)], tb)) - 4
+        n = LIMIT - base + draw(st.integers(-9, 9))
     elif where == 'small':
         n = draw(st.integers(1, 3000))
     else:
@@ -824,7 +838,7 @@ def run_dsend(case, v):
     labels = [f'n%4={case["n"] % 4}',
               'compl=' + ('none' if compl is None else 'empty' if compl == []
                           else 'msg' if M.is_msg_list(compl) else 'bundle')]
-    near = abs(real - LIMIT) <= 16
+    near = abs(real - LIMIT) <= 12
     labels.append('fits' if real <= LIMIT else 'too_big')
     addr = NetAddr('127.0.0.1', 57110)
     cap = Cap()
@@ -860,7 +874,7 @@ def run_dsend(case, v):
             fail(v, 'd_recv_over_limit',
                  f'{case["n"]} definition bytes, completion {compl!r}: '
                  f'/d_recv datagram of {len(d)} bytes > {LIMIT} was sent',
-                 n=case['n'])
+                 size=len(d))
         if not R.same_packet(dec, exp):
             fail(v, 'roundtrip_differs',
                  f'/d_recv decoded {short(R.to_plain(dec))}')
@@ -1008,14 +1022,27 @@ def classify_known(stage, case, viol):
             return 'nul_in_string_sent'
         return None
     if stage == 'clump':
-        wide = any(g['t'][0] == 'str' and g['t'][2] for g in case['groups'])
-        if kind == 'clump_over_limit_prefix_bytes' \
-                and case['path'] == 'sync':
-            if 'clump_ignores_size_prefix' in _ACTIVE or not wide:
+        if kind == 'clump_over_limit' and 'acc' in data:
+            # The datagram is attributed to known defects only if, with
+            # their measured contributions removed, the clumper's own
+            # invariant holds for this datagram.
+            b = data['bdef'] if 'size_blob_padding' in _ACTIVE else 0
+            u = data['udef'] if 'size_str_utf8' in _ACTIVE else 0
+            sizekey = max((b, 'size_blob_padding'), (u, 'size_str_utf8'))
+            # (a) a send whose predicted size was within the limit
+            if sizekey[0] > 0 and data['size'] - b - u <= LIMIT:
+                return sizekey[1]
+            # (b) sync path: 16 + sum(predicted sizes) stayed below the clump
+            # size, the uncounted 4-byte prefixes (+ /sync) pushed it over
+            if data['path'] == 'sync' \
+                    and 'clump_ignores_size_prefix' in _ACTIVE \
+                    and data['acc'] - b - u < SYNC_MAX:
                 return 'clump_ignores_size_prefix'
-            return 'size_str_utf8'
-        if kind == 'clump_over_limit' and wide:
-            return 'size_str_utf8'
+            # (c) a clump of the default size inflated by the size defects
+            if data['path'] != 'sync' and data['ndgrams'] > 1 \
+                    and sizekey[0] > 0 and data['acc'] - b - u < 8192:
+                return sizekey[1]
+            return None
         if kind == 'clump_raised' and data.get('exc') == 'ValueError' \
                 and data.get('oversized') and case['path'] == 'clumped' \
                 and case['time'] is not None and any(
@@ -1025,8 +1052,14 @@ def classify_known(stage, case, viol):
         return None
     if stage == 'dsend':
         compl = case['completion']
-        if kind == 'd_recv_over_limit' and case['n'] % 4:
-            return 'size_blob_padding'
+        if kind == 'd_recv_over_limit':
+            f = features(_payload(stage, case))
+            b = f['blob_deficit'] if 'size_blob_padding' in _ACTIVE else 0
+            u = f['utf8_deficit'] if 'size_str_utf8' in _ACTIVE else 0
+            amount, key = max((b, 'size_blob_padding'), (u, 'size_str_utf8'))
+            if amount > 0 and data.get('size', 1 << 30) - b - u <= LIMIT:
+                return key
+            return None
         if kind == 'd_send_raised' and data.get('exc') in (
                 'TypeError', 'IndexError') and (
                     compl == [] or M.is_bundle_arg(compl)):
@@ -1038,10 +1071,10 @@ def classify_known(stage, case, viol):
 def stages(ctx):
     return [
         Stage('msg', run_msg, msg_case_strategy(ctx.tier),
-              quick=1200, thorough=30000),
+              quick=1000, thorough=30000),
         Stage('bundle', run_bundle, bundle_case_strategy(ctx.tier),
-              quick=500, thorough=12000),
-        Stage('clump', run_clump, clump_case(), quick=150, thorough=1500),
+              quick=400, thorough=12000),
+        Stage('clump', run_clump, clump_case(), quick=130, thorough=1500),
         Stage('dsend', run_dsend, dsend_case(), quick=120, thorough=1500),
         Stage('score', run_score, score_case_strategy(),
               quick=120, thorough=2000),
